@@ -789,13 +789,41 @@ func (c *c08Run) runBatch(m *c08Module, pkgs []*c08Pkg, tag string, depth int) {
 }
 
 func (c *c08Run) runBatchFlags(m *c08Module, pkgs []*c08Pkg, tag string, depth int, flags []string) {
+	c.runBatchInv(m, pkgs, tag, depth, flags, nil)
+}
+
+// c08Inv is the form of one invocation: working directory, how -out is spelled, arguments before the
+// patterns, and the patterns (which must select exactly pkgs). nil = from the module root, one ./dir per package.
+type c08Inv struct {
+	Shape    string
+	Cwd      string
+	OutArg   func(out string) string // spelling of the absolute directory `out` ("" = as is)
+	Pre      []string
+	Patterns []string
+}
+
+func (c *c08Run) runBatchInv(m *c08Module, pkgs []*c08Pkg, tag string, depth int, flags []string, inv *c08Inv) {
 	r := c.r
 	out := filepath.Join(r.Scratch, "c08out", m.Name, tag)
-	args := append([]string{"-out", out}, flags...)
-	for _, p := range pkgs {
-		args = append(args, "./"+p.Dir)
+	cwd := m.dir
+	outArg := out
+	var pre, patterns []string
+	if inv != nil {
+		cwd, pre, patterns = inv.Cwd, inv.Pre, inv.Patterns
+		if inv.OutArg != nil {
+			outArg = inv.OutArg(out)
+		}
+		r.Count("invocation_shape_"+inv.Shape, 1)
+		r.Count("packages_judged_under_invocation_shapes", int64(len(pkgs)))
+	} else {
+		for _, p := range pkgs {
+			patterns = append(patterns, "./"+p.Dir)
+		}
 	}
-	iv := runGoose(c.bin, m.dir, nil, args...)
+	args := append([]string{"-out", outArg}, pre...)
+	args = append(args, flags...)
+	args = append(args, patterns...)
+	iv := runGoose(c.bin, cwd, nil, args...)
 	r.Count("goose_invocations", 1)
 	if iv.res.TimedOut {
 		r.Inconclusive("goose-watchdog")
@@ -1023,7 +1051,106 @@ func (c *c08Run) runModule(m *c08Module) error {
 	if len(partial) > 0 {
 		c.runBatchFlags(m, partial, "partial", 0, []string{"-ignore-errors"})
 	}
+	c.runShapes(m, normal)
 	return nil
+}
+
+// runShapes judges the same headers under other forms of the command line: what a file's header and path
+// must be follows from the package alone, not from how the package was selected or where goose was started.
+func (c *c08Run) runShapes(m *c08Module, normal []*c08Pkg) {
+	r := c.r
+	if len(normal) < 4 {
+		return
+	}
+	// a spread of the module's packages (every 5th, at most 48), always including the first ones (the leaves)
+	var sample []*c08Pkg
+	step := len(normal)/48 + 1
+	for i := 0; i < len(normal); i += step {
+		sample = append(sample, normal[i])
+	}
+	elsewhere := filepath.Join(r.Scratch, "c08elsewhere", m.Name)
+	os.MkdirAll(elsewhere, 0o755)
+	sub := filepath.Join(m.dir, sample[0].Dir)
+	var invs []*c08Inv
+	var sets [][]*c08Pkg
+	add := func(inv *c08Inv, pkgs []*c08Pkg) {
+		invs = append(invs, inv)
+		sets = append(sets, pkgs)
+	}
+	// import paths, -dir, started in an unrelated directory, -out relative to that directory with a trailing slash
+	{
+		inv := &c08Inv{Shape: "import-paths-with-dir-flag-from-elsewhere-relative-out", Cwd: elsewhere, Pre: []string{"-dir", m.dir},
+			OutArg: func(out string) string { rel, _ := filepath.Rel(elsewhere, out); return "./" + rel + "/" }}
+		for _, p := range sample {
+			inv.Patterns = append(inv.Patterns, p.importPath)
+		}
+		add(inv, sample)
+	}
+	// started in a package directory of the module, ../ patterns
+	{
+		inv := &c08Inv{Shape: "from-subdirectory-with-parent-patterns", Cwd: sub, OutArg: func(out string) string { return out + "/" }}
+		for _, p := range sample {
+			rel, err := filepath.Rel(sub, filepath.Join(m.dir, p.Dir))
+			if err != nil {
+				return
+			}
+			if !strings.HasPrefix(rel, ".") {
+				rel = "./" + rel
+			}
+			inv.Patterns = append(inv.Patterns, rel)
+		}
+		add(inv, sample)
+	}
+	// every package selected several times: relative path, import path, relative path with a trailing slash
+	{
+		inv := &c08Inv{Shape: "each-package-selected-three-times", Cwd: m.dir}
+		for _, p := range sample {
+			inv.Patterns = append(inv.Patterns, "./"+p.Dir)
+		}
+		for i := len(sample) - 1; i >= 0; i-- {
+			inv.Patterns = append(inv.Patterns, sample[i].importPath, "./"+sample[i].Dir+"/")
+		}
+		add(inv, sample)
+	}
+	// recursive patterns: a directory all of whose packages are translatable, plus an explicit member
+	byTop := map[string][]*c08Pkg{}
+	okTop := map[string]bool{}
+	for _, p := range m.Pkgs {
+		okTop[strings.SplitN(p.Dir, "/", 2)[0]] = true
+	}
+	isNormal := map[*c08Pkg]bool{}
+	for _, p := range normal {
+		isNormal[p] = true
+	}
+	for _, p := range m.Pkgs {
+		top := strings.SplitN(p.Dir, "/", 2)[0]
+		if !isNormal[p] || !strings.Contains(p.Dir, "/") {
+			okTop[top] = false
+		}
+		byTop[top] = append(byTop[top], p)
+	}
+	var tops []string
+	for t, ok := range okTop {
+		if ok && len(byTop[t]) >= 2 {
+			tops = append(tops, t)
+		}
+	}
+	sort.Strings(tops)
+	if len(tops) > 3 {
+		tops = tops[:3]
+	}
+	if len(tops) > 0 {
+		inv := &c08Inv{Shape: "recursive-patterns-plus-members", Cwd: m.dir}
+		var set []*c08Pkg
+		for _, t := range tops {
+			inv.Patterns = append(inv.Patterns, "./"+t+"/...", "./"+byTop[t][0].Dir, m.ModPath+"/"+t+"/...")
+			set = append(set, byTop[t]...)
+		}
+		add(inv, set)
+	}
+	core.Parallel(len(invs), 4, func(i int) {
+		c.runBatchInv(m, sets[i], fmt.Sprintf("shape%d", i), 1, nil, invs[i])
+	})
 }
 
 func runC08(r *core.Run) (bool, string) {
